@@ -50,7 +50,11 @@ def save(outf, obj):
         # a file opened in text mode
         outf.write(text)
     else:
-        outf.write(text.encode())
+        try:
+            outf.write(text.encode())
+        except TypeError:
+            # a text-mode stream that is not a TextIOBase (e.g. tempfile's)
+            outf.write(text)
     if close:
         outf.close()
 
